@@ -73,12 +73,17 @@ pub fn main() {
     }));
     nd::native_load(vals);
     let r = panic::catch_unwind(f);
+    let failed = nd::native_failed();
     let (outcome, message, location) = match r {
-        Ok(()) => ("pass", String::new(), String::new()),
+        Ok(()) => {
+            if failed.is_empty() {
+                ("pass", String::new(), String::new())
+            } else {
+                ("check_failed", failed[0].to_string(), String::new())
+            }
+        }
         Err(p) => {
-            if let Some(c) = p.downcast_ref::<nd::CheckFailed>() {
-                ("check_failed", c.0.to_string(), String::new())
-            } else if p.downcast_ref::<nd::AssumeViolated>().is_some() {
+            if p.downcast_ref::<nd::AssumeViolated>().is_some() {
                 ("assume_violated", String::new(), String::new())
             } else {
                 let (m, l) = LAST_PANIC.lock().unwrap().clone().unwrap_or_default();
@@ -88,13 +93,15 @@ pub fn main() {
     };
     let covered: Vec<String> = nd::native_covered().iter().map(|c| format!("\"{}\"", esc(c))).collect();
     // the harness output must be the last line: the real crate may itself print
+    let failed_js: Vec<String> = failed.iter().map(|c| format!("\"{}\"", esc(c))).collect();
     println!(
-        "\nREPLAY-RESULT {{\"outcome\": \"{}\", \"message\": \"{}\", \"location\": \"{}\", \"exhausted\": {}, \"covered\": [{}]}}",
+        "\nREPLAY-RESULT {{\"outcome\": \"{}\", \"message\": \"{}\", \"location\": \"{}\", \"exhausted\": {}, \"covered\": [{}], \"failed\": [{}]}}",
         outcome,
         esc(&message),
         esc(&location),
         nd::native_exhausted(),
-        covered.join(", ")
+        covered.join(", "),
+        failed_js.join(", ")
     );
 }
 }
